@@ -34,7 +34,11 @@ def gen_case(g):
          "Win": (rng.normal(size=(n, m)) * g.choice([1.0, 5.0])).tolist(), "bias": rng.normal(size=n).tolist(),
          "U": (rng.normal(size=(T, m)) * scale).tolist(),
          "x0": (rng.uniform(-1, 1, size=n)).tolist(), "y0": (rng.uniform(-1, 1, size=n)).tolist(),
-         "mode": g.choice(["from_state", "reset_to", "calls"])}
+         "mode": g.choice(["from_state", "reset_to", "calls", "runs1"])}
+    if g.chance(0.3):
+        # a spectral radius handed over next to a user-supplied matrix is documented as ignored: the dynamics (and the
+        # contraction factor, which depends on the largest singular value) are those of the matrix given
+        c["sr_given"] = g.choice([0.5, 0.95, 2.0])
     if act == "tanh" and g.chance(0.25):
         # a single-precision tanh reservoir driven beyond the float32 range: the state must stay a number inside the box
         c["dtype"] = "float32"
@@ -44,7 +48,7 @@ def gen_case(g):
         U = np.array(c["U"]).reshape(T, m)
         U[rng.integers(0, T), rng.integers(0, m)] = g.choice([1e39, -1e39, 1e120, 3e300])
         c["U"] = U.tolist()
-        c["mode"] = "reset_to" if c["mode"] == "calls" else c["mode"]
+        c["mode"] = "reset_to" if c["mode"] in ("calls", "runs1") else c["mode"]
     if g.chance(0.3):
         c["lr_first"] = g.choice([v for v in (1.0, 0.5, 0.25, 0.9, 0.1) if v != c["lr"]])
         c["lr_via"] = g.choice(["set_param", "hypers", "attr"])
@@ -74,6 +78,8 @@ def build(c):
     if c.get("W_swap"):
         W = W.T * (0.99 / float(np.linalg.svd(W, compute_uv=False)[0]))
     kw = {"dtype": np.float32} if c.get("dtype") == "float32" else {}
+    if c.get("sr_given") is not None:
+        kw["sr"] = c["sr_given"]
     return Reservoir(W=as_fmt(c, W), Win=np.array(c["Win"]).reshape(n, m),
                      bias=np.array(c["bias"]).reshape(n, 1), lr=c["lr"], activation=c["act"], **kw)
 
@@ -86,11 +92,24 @@ class ReturnedRowsDiffer(Exception):
     pass
 
 
+class MatrixChanged(Exception):
+    pass
+
+
 def run_from(c, x0):
     r = build(c)
     U = np.array(c["U"]).reshape(len(c["U"]), c["m"]).astype(np.dtype(c.get("udtype", "float64")))
     r.initialize(U[:1])
     lr = c["lr"]
+    W_given = np.array(c["W"]).reshape(c["n"], c["n"])
+    if c.get("W_swap"):
+        W_given = W_given.T * (0.99 / float(np.linalg.svd(W_given, compute_uv=False)[0]))
+    W_held = r.W.toarray() if hasattr(r.W, "toarray") else np.asarray(r.W)
+    tolW = 1e-6 if c.get("dtype") == "float32" else 0.0
+    if not np.allclose(np.asarray(W_held, dtype=float), W_given, rtol=tolW, atol=tolW):
+        raise MatrixChanged("the recurrent matrix the node holds after initialisation is not the matrix handed over as W "
+                            f"(sr={c.get('sr_given')}): largest singular value {float(np.linalg.svd(np.asarray(W_held, dtype=float), compute_uv=False)[0]):.4g} "
+                            f"instead of {float(np.linalg.svd(W_given, compute_uv=False)[0]):.4g}")
     if c.get("W_swap"):
         r.run(U[:2])
         Wnew = as_fmt(c, np.array(c["W"]).reshape(c["n"], c["n"]))
@@ -124,6 +143,17 @@ def run_from(c, x0):
                 raise CallerArrayChanged(f"call(u, from_state=x) overwrote the caller's array x at step {t}")
             rows.append(np.array(y, dtype=float).reshape(-1).copy())
             x = np.array(y, dtype=float)
+        out = np.array(rows)
+    elif c["mode"] == "runs1":
+        # streaming: one-step runs, each started from the state the previous one returned
+        rows, x = [], mine
+        for t in range(len(U)):
+            y = r.run(U[t:t + 1], from_state=x)
+            rows.append(np.array(y, dtype=float).reshape(-1).copy())
+            x = np.array(y, dtype=float).reshape(1, -1)
+            if t == 0 and len(U) > 1:
+                r.reset()       # the state the node holds must not matter: every run names its starting state
+                x = x.copy()
         out = np.array(rows)
     else:
         r.reset(to_state=mine)
